@@ -348,13 +348,13 @@ def r3_header_order(rep, facts):
 
     def summary(d):
         b = facts.body(d)
-        stmts = b['body'].get('stmts', [])
         bump = None
         setpos = None
         fields = set()
         calls = set()
-        for i, s in enumerate(stmts):
-            for n in walk(s):
+        # order = position in a pre-order walk of the whole body (the statements may sit in an expanded helper)
+        for i, n in enumerate(walk(b['body'])):
+            for n in (n,):
                 if n.get('k') == 'assignop' and peel(n['lhs']).get('name') == 'current_table_position' and n.get('op') in ('+=', '+'):
                     try:
                         if Evaluator(facts).integer(n['rhs']) == 1:
